@@ -838,6 +838,10 @@ pub fn with_cell_pair(p: &Program, guards: bool, include_main: bool) -> Vec<Prog
                         v.push(k.clone().when(pos - 1, Res::Ok(x)));
                     }
                 }
+                // "only if the try-acquire succeeded": the access is then inside the section
+                K::TryLock { .. } | K::TryRead { .. } | K::TryWrite { .. } => {
+                    v.push(k.clone().when(pos - 1, Res::Ok(0)));
+                }
                 _ => {}
             }
         }
@@ -1438,6 +1442,9 @@ pub fn race_s_lock(tier: &str) -> Vec<Program> {
     base.extend(lock_family(1, 0, 2, 2, 4, false, false));
     base.extend(lock_family(0, 1, 2, 2, 4, false, false));
     base.extend(lock_family(0, 1, 3, 2, 6, false, false));
+    // with try_lock / try_read / try_write sections (accesses guarded by the try's success)
+    base.extend(lock_family(1, 0, 2, 2, 4, true, false));
+    base.extend(lock_family(0, 1, 2, 2, 4, true, false));
     if tier != "quick" {
         base.extend(lock_family(1, 1, 2, 2, 4, true, false));
         base.extend(lock_family(1, 0, 3, 2, 6, false, false));
